@@ -85,9 +85,31 @@ def make_frame(ctx, pu, kind, tagged, npay):
     ctx.assume((tci & 0x1000) == 0)       # CFI 0
     b += [0x81, 0x00] + be(tci, 2)
   pay = list(ctx.bytes('pay', npay))
-  if kind in ('tcp', 'udp', 'icmp'):
-    l4 = kind
-    if kind == 'tcp':
+  if kind in ('tcp', 'udp', 'icmp', 'icmperr', 'icmperr_trunc'):
+    l4 = 'icmp' if kind.startswith('icmp') else kind
+    if kind in ('icmperr', 'icmperr_trunc'):
+      # ICMP destination-unreachable / time-exceeded quoting the IPv4 header and the 8-byte UDP header of the offending datagram.
+      # 'icmperr': the quoted datagram is self-consistent (total length 28, valid header and UDP checksums), so that re-serialising
+      # POX's parse tree is the identity; 'icmperr_trunc': as on a real network - the quoted header keeps the length of the original
+      # (longer) datagram and its UDP checksum covers data that is not quoted.
+      isp = ctx.int('q_sport', 0, 0xffff); idp = ctx.int('q_dport', 0, 0xffff)
+      for v in SPECIAL_UDP: ctx.assume(ctx.And(isp != v, idp != v))
+      trunc = kind == 'icmperr_trunc'
+      qlen = ctx.int('q_totlen', 29, 1500) if trunc else 28
+      iip = [0x45, ctx.int('q_tos', 0, 255)] + be(qlen, 2) + be(ctx.int('q_id', 0, 0xffff), 2) + [0x40, 0, ctx.int('q_ttl', 0, 255), 17, 0, 0] + \
+            list(ctx.bytes('q_src', 4)) + list(ctx.bytes('q_dst', 4))
+      iip[10:12] = be(pu.checksum(env.tobytes(ctx, iip), 0), 2)
+      iu = be(isp, 2) + be(idp, 2) + be(qlen - 20, 2) + [0, 0]
+      if trunc:
+        iu[6:8] = be(ctx.int('q_udpcsum', 0, 0xffff), 2)
+      else:
+        c = pu.checksum(env.tobytes(ctx, iip[12:20] + [0, 17] + be(8, 2) + iu), 0, 9)
+        iu[6:8] = be(ctx.Ite(c == 0, 0xffff, c), 2)
+      t = ctx.Ite(ctx.bool('time_exceeded'), 11, 3)
+      body = [t, ctx.int('icmpcode', 0, 15), 0, 0] + list(ctx.bytes('icmprest', 4)) + iip + iu
+      body[2:4] = be(pu.checksum(env.tobytes(ctx, body), 0), 2)
+      seg = body; proto = 1
+    elif kind == 'tcp':
       seg = be(ctx.int('sport', 0, 0xffff), 2) + be(ctx.int('dport', 0, 0xffff), 2) + list(ctx.bytes('seqack', 8)) + [0x50, ctx.int('tflags', 0, 255)] + \
             be(ctx.int('win', 0, 0xffff), 2) + [0, 0] + be(ctx.int('urg', 0, 0xffff), 2) + pay
       proto = 6
@@ -96,7 +118,7 @@ def make_frame(ctx, pu, kind, tagged, npay):
       for v in SPECIAL_UDP: ctx.assume(ctx.And(sp != v, dp != v))
       seg = be(sp, 2) + be(dp, 2) + be(8 + npay, 2) + [0, 0] + pay
       proto = 17
-    else:
+    elif kind == 'icmp':
       body = [8, 0, 0, 0] + list(ctx.bytes('icmpid', 4)) + pay
       c = pu.checksum(env.tobytes(ctx, body), 0)
       body[2:4] = be(c, 2)
@@ -199,10 +221,11 @@ def h_rewrite(ctx, kind, tagged, codes, npay=2):
     if d[0] == 'out': expect.append((d[1], list(cur.b)))
     else: ref_apply(ctx, pu, cur, d)
   ctx.check('number of emitted frames', len(outs) == len(expect))
+  tag = '[icmp-quote-truncated] ' if kind == 'icmperr_trunc' else ''
   for (p, got), (ep, eb) in zip(outs, expect):
     ctx.check('egress port', p == ep)
-    ctx.check('emitted length', len(got) == len(eb))
-    if len(got) == len(eb): ctx.check('emitted bytes == reference edit of the frame', ctx.Eq(got, env.tobytes(ctx, eb)))
+    ctx.check(tag + 'emitted length', len(got) == len(eb))
+    if len(got) == len(eb): ctx.check(tag + 'emitted bytes == reference edit of the frame', ctx.Eq(got, env.tobytes(ctx, eb)))
   for p in (1, 2, 3, 4):
     st = sw.port_stats[p]
     mine = [eb for ep, eb in expect if bool(ep == p)]
@@ -294,6 +317,12 @@ def obligations(tier):
       cases.append(dict(kind=k, tagged=t, codes=[c, A_OUT]))
     cases.append(dict(kind=k, tagged=t, codes=[A_OUT]))
     cases.append(dict(kind=k, tagged=t, codes=[A_ENQ]))
+  # ICMP errors quoting a UDP datagram: the quoted header is payload - no action may touch it (set_tp_* in particular)
+  for t in ((False, True) if thorough else (False,)):
+    for c in (A_TPSRC, A_TPDST, A_NWSRC, A_NWDST, A_TOS) + ((A_DLSRC, A_VID, A_STRIP) if thorough else ()):
+      cases.append(dict(kind='icmperr', tagged=t, codes=[c, A_OUT]))
+    cases.append(dict(kind='icmperr', tagged=t, codes=[A_OUT]))
+  cases.append(dict(kind='icmperr_trunc', tagged=False, codes=[A_OUT]))
   # pairs: output between rewrites (snapshot semantics), and rewrite pairs
   pairs = [(a, b) for a in REWRITES for b in REWRITES]
   for i, (a, b) in enumerate(pairs):
